@@ -223,7 +223,13 @@ struct condition_variable {
             ::vrt::fail("cv-wait-unlocked", "condition_variable::wait without owning the mutex");
         f.blocking_ops++;
         f.pend = ::vrt::P_NONE;
+        {   // targeted delay (generated): hold this fiber in the window between "predicate checked" and "registered as a waiter" for a
+            // few steps while the others run — the place where a notify that is not ordered by the mutex gets lost
+            uint8_t b = ::vrt::rt().aux_byte();
+            if ((b & 3) == 2) f.delayed_until = ::vrt::rt().res.steps + 2 + ((b >> 2) & 7);
+        }
         ::vrt::point();                       // the window *before* the waiter is registered
+        f.delayed_until = -1;
         // atomically: register, release the mutex
         cv.waiters.push_back(f.id);
         f.notified = false; f.timeout_fired = false; f.timed = timed; f.patience = -1; f.spurious_in = -1;
